@@ -162,3 +162,12 @@ Theorem C06_code_reported_http : forall code msg, code3 code ->
   process_response (http_status code) (build_reply_header code msg) = report_of code.
 Proof. intros code msg H. split; [apply reply_header_code, H|apply http_code_reported, H]. Qed.
 Print Assumptions C06_code_reported_http.
+
+(* ... for ALL codes 100..599 and all message texts: whatever HTTP status the edge picks for the code (204 for
+   2xx, 503 for 4xx, 401 for 535, 500 for everything else), the code attempt() reports or raises is the edge's
+   own code, and it is a success exactly for 2xx *)
+Theorem C06_edge_code_reported_http : forall code msg, code3 code ->
+  report_code (process_response (http_status code) (build_reply_header code msg)) = Some code /\
+  report_is_success (process_response (http_status code) (build_reply_header code msg)) = starts_with [50] code.
+Proof. exact http_reported_code. Qed.
+Print Assumptions C06_edge_code_reported_http.
